@@ -1,6 +1,7 @@
 package main
 
 import (
+	"os"
 	"fmt"
 	"go/constant"
 	"go/token"
@@ -676,7 +677,7 @@ func (g *Gen) nilCheck(st *State, p PtrV) {
 	if p.Cell != nil || strings.HasPrefix(p.RootKey, "G:") {
 		return
 	}
-	if g.spec != nil && g.spec.Options["check-nil"] != "" {
+	if (g.spec != nil && g.spec.Options["check-nil"] != "") || os.Getenv("GOVC_CHECK_NIL_ALL") != "" {
 		g.oblige(st, "nil", "", "nil pointer dereference", "(< 0 "+p.Ref+")")
 	} else {
 		g.assume(st, "(< 0 "+p.Ref+")")
